@@ -1286,6 +1286,7 @@ def check(pid, tier, seed):
     samples = []
     disagreements = []
     oracle_failures = []
+    n_kept_failures = 0
     problems = []
     ctx = {}
     timeout = 900 if tier == "quick" else 3600
@@ -1330,7 +1331,8 @@ def check(pid, tier, seed):
                             seen_known.add(id(k))
                             print("KNOWN-FINDING: property=%s %s" % (pid, k.get("line", k.get("what", R.show_req(req)))))
                         msg = None
-                if msg and len([x for x in oracle_failures if x]) < 50:
+                if msg and n_kept_failures < 50:
+                    n_kept_failures += 1
                     oracle_failures.append((sname, req, impl, mo, msg, label, list(window)))
                 elif msg:
                     oracle_failures.append(None)
